@@ -162,11 +162,9 @@ impl<T: ?Sized> RwLock<T> {
     pub fn try_read(&self) -> TryLockResult<RwLockReadGuard<'_, T>> {
         let mut r = match self.rlock.try_lock() {
             Ok(r) => r,
-            Err(TryLockError::Poisoned(_)) => {
-                return Err(TryLockError::Poisoned(PoisonError::new(RwLockReadGuard {
-                    __lock: self,
-                })));
-            }
+            // `rlock` is an internal counter mutex, only writers poison the
+            // rwlock: recover the guard, we own the `rlock` mutex here
+            Err(TryLockError::Poisoned(e)) => e.into_inner(),
             Err(TryLockError::WouldBlock) => return Err(TryLockError::WouldBlock),
         };
 
@@ -176,10 +174,10 @@ impl<T: ?Sized> RwLock<T> {
             }
         }
 
-        let g = RwLockReadGuard::new(self)?;
-        // finally we add rlock
+        // count the reader first: the guard, also the one that is returned
+        // inside a Poisoned error, would dec the count when dropped
         *r += 1;
-        Ok(g)
+        Ok(RwLockReadGuard::new(self)?)
     }
 
     fn read_unlock(&self) {
